@@ -45,15 +45,19 @@ const (
 	opShutdownAgain    = 19
 	opSendSlow         = 20 // like opSend, but the client is slow to read: the server's Write stays in progress
 	opResumeRead       = 21 // the slow client reads on
+	opDisconnectDial   = 23 // client cl disconnects; the NEXT client (arg) is dialled from inside cl's close callback (if set)
+	opClientGone       = 24 // the client of a connection whose handler is blocked closes its end: the reply write will fail
+	opShutdownInServe  = 25 // first op: Shutdown is called from inside OnServeFunc (if set; else before Serve)
 	opBurst            = 22 // first op: cl connections are queued in the listener before Serve starts; the accept callback (if set) rejects when told a count > arg (arg 0: no limit)
 )
 
 const (
-	hNormal = 0
-	hError  = 1
-	hPanic  = 2
-	hBlock  = 3
-	hSleep  = 4
+	hNormal     = 0
+	hError      = 1
+	hPanic      = 2
+	hBlock      = 3
+	hSleep      = 4
+	hBlockPanic = 5 // blocks until released, then panics
 )
 
 type lcOp struct{ op, cl, arg int }
@@ -62,6 +66,7 @@ type lcClient struct {
 	conn    *memConn
 	state   int // 0 none, 1 open, 2 gone, 3 rejected, 4 leaked, 5 held
 	blocked bool
+	doomed  bool // blocked, and its exchange will not produce a reply (handler panics on release / client gone)
 	slow    bool // a request with a slow reader is outstanding
 	wwait   bool // the server's Write to this client is blocked
 	seq     int
@@ -121,6 +126,13 @@ func (h lcHandler) Handle(ctx context.Context, received packet.Request) (packet.
 		panic(memErr{id, "handler panic"})
 	case hBlock:
 		<-ch
+	case hBlockPanic:
+		<-ch
+		r.w.mu.Lock()
+		r.w.conns[id].errsExpected++
+		r.w.logLocked(lcEvent{code: evHandlerEnd, c: id})
+		r.w.mu.Unlock()
+		panic(memErr{id, "handler panic"})
 	case hSleep:
 		time.Sleep(15 * time.Millisecond)
 	}
@@ -159,8 +171,18 @@ func runLifecycle(cfg int, script []lcOp) (events []lcEvent, extra [3]int, summa
 	defer cancel()
 	s := &server.Server{ReadTimeout: 10 * time.Millisecond, WriteTimeout: time.Minute}
 	r.srv = s
+	inServe := len(script) > 0 && script[0].op == opShutdownInServe
 	if cfg&1 != 0 {
-		s.OnServeFunc = func(addr net.Addr) { w.log(evServeCb, 0, 0, 0) }
+		s.OnServeFunc = func(addr net.Addr) {
+			w.log(evServeCb, 0, 0, 0)
+			if inServe {
+				// Shutdown in serve's start-up window: the listener has not been published yet
+				w.logScript(evSdCall, 0, 1, 0)
+				code := r.shutdown(15 * time.Second)
+				r.sdCode = code
+				w.logScript(evSdReturn, 0, code, 0)
+			}
+		}
 	}
 	if cfg&2 != 0 {
 		s.OnErrorFunc = func(err error) {
@@ -209,16 +231,27 @@ func runLifecycle(cfg int, script []lcOp) (events []lcEvent, extra [3]int, summa
 			if isServerShutdown {
 				b = 1
 			}
-			w.log(evCloseCb, remoteAddr.(memAddr).id, b, 0)
+			id := remoteAddr.(memAddr).id
+			w.log(evCloseCb, id, b, 0)
+			w.mu.Lock()
+			h := w.conns[id].closeHook
+			w.mu.Unlock()
+			if h != nil {
+				h() // the callback is still running while the hook dials the next client
+			}
 		}
 	}
 
 	start := 0
-	if len(script) > 0 && script[0].op == opShutdownFresh {
+	if inServe && cfg&1 != 0 {
 		start = 1
 		r.shutBegun = true
 		r.stopped = true
-		w.logScript(evSdCall, 0, 0, 0)
+	} else if len(script) > 0 && (script[0].op == opShutdownFresh || inServe) {
+		start = 1
+		r.shutBegun = true
+		r.stopped = true
+		w.logScript(evSdCall, 0, 1, 0)
 		code := 4
 		func() {
 			defer func() { _ = recover() }()
@@ -408,6 +441,9 @@ func (r *lcRun) afterShutdown(code int) {
 }
 
 func (r *lcRun) awaitServe() {
+	if r.inbound == 0 {
+		return // already found hanging
+	}
 	t0 := time.Now()
 	select {
 	case <-r.serveRet:
@@ -490,40 +526,51 @@ func (r *lcRun) step(o lcOp) {
 		if r.sdCode == 0 && r.refused == 2 && o.op != opConnectHeld {
 			r.refused = 0 // a connection was accepted after a successful Shutdown
 		}
-		cl.conn = c
-		if r.onAccept() {
-			// the verdict of the accept callback (scripted rejection or the limit) is read off the log
-			w.waitFor("accept callback", func() bool {
-				for _, e := range w.events {
-					if e.code == evAcceptCb && e.c == c.id {
-						rej = e.b == 0
-						return true
-					}
-				}
-				return false
-			})
+		r.settle(cl, c, o.op, rej)
+	case opDisconnectDial:
+		nxt := r.client(o.arg)
+		if cl.state != 1 || cl.blocked || cl.wwait || nxt.state != 0 || o.arg == o.cl {
+			return
 		}
-		switch {
-		case rej:
-			w.waitFor("reject close", func() bool { return c.closeCalls >= 1 })
-			w.mu.Lock()
-			w.logLocked(lcEvent{code: evClientClosed, c: c.id})
-			w.mu.Unlock()
-			cl.state = 3
-		case o.op == opConnectCancel:
-			// serve sees the cancelled context in its select: it closes the connection, runs the close
-			// callback and returns
-			r.stopped = true
-			r.awaitServe()
+		if !r.onClose() {
+			cl.conn.clClose()
 			r.awaitGone(cl)
-			r.afterCancel()
-		case o.op == opConnectHeld:
-			w.waitFor("held", func() bool { return c.held })
-			cl.state = 5
-		default:
-			w.waitFor("tracked", func() bool { return c.readCalls >= 1 })
-			cl.state = 1
+			r.step(lcOp{opConnect, o.arg, 0})
+			return
 		}
+		got := make(chan *memConn, 1)
+		w.mu.Lock()
+		cl.conn.closeHook = func() {
+			c2, ok := r.lis.dial(nil)
+			if ok && r.onAccept() {
+				// the accept callback of the new connection runs while this close callback is still running
+				w.waitFor("accept callback in close callback", func() bool { return w.countLocked(evAcceptCb, c2.id) >= 1 })
+			}
+			if !ok {
+				c2 = nil
+			}
+			got <- c2
+		}
+		w.mu.Unlock()
+		cl.conn.clClose()
+		var c2 *memConn
+		select {
+		case c2 = <-got:
+		case <-time.After(25 * time.Second):
+			w.mu.Lock()
+			w.failed = append(w.failed, "dial in close callback")
+			w.mu.Unlock()
+		}
+		r.awaitGone(cl)
+		if c2 != nil {
+			r.settle(nxt, c2, opConnect, false)
+		}
+	case opClientGone:
+		if cl.state != 1 || !cl.blocked || cl.slow {
+			return
+		}
+		cl.conn.clClose()
+		cl.doomed = true
 	case opUnhold:
 		r.doUnhold()
 	case opResumeRead:
@@ -545,6 +592,9 @@ func (r *lcRun) step(o lcOp) {
 			if mode != hNormal && mode != hBlock {
 				mode = hNormal
 			}
+			if mode == hBlockPanic {
+				mode = hBlock
+			}
 			cl.slow = true
 			w.mu.Lock()
 			cl.conn.slowRead = true
@@ -559,8 +609,9 @@ func (r *lcRun) step(o lcOp) {
 		switch {
 		case o.op == opPeerReset || mode == hPanic:
 			r.awaitGone(cl)
-		case mode == hBlock:
+		case mode == hBlock || mode == hBlockPanic:
 			cl.blocked = true
+			cl.doomed = mode == hBlockPanic
 			w.waitFor("handler start", func() bool { return w.countLocked(evHandlerStart, cl.conn.id) > starts })
 		case o.op == opSendSlow:
 			cl.wwait = true
@@ -613,7 +664,7 @@ func (r *lcRun) step(o lcOp) {
 		if r.anyBlocked() || r.sdAsync {
 			return
 		}
-		w.logScript(evSdCall, 0, 0, 0)
+		w.logScript(evSdCall, 0, 1, 0)
 		code := r.shutdown(15 * time.Second)
 		w.logScript(evSdReturn, 0, code, 0)
 		r.afterShutdown(code)
@@ -633,7 +684,7 @@ func (r *lcRun) step(o lcOp) {
 		w.mu.Lock()
 		r.sdSeen = w.countLocked(evSdReturn, 0)
 		w.mu.Unlock()
-		w.logScript(evSdCall, 0, 0, 0)
+		w.logScript(evSdCall, 0, 1, 0)
 		go func() {
 			code := r.shutdown(15 * time.Second)
 			w.mu.Lock()
@@ -657,6 +708,45 @@ func (r *lcRun) step(o lcOp) {
 			r.awaitServe()
 		}
 		r.afterCancel()
+	}
+}
+
+// settle waits until a freshly accepted connection has reached its next quiescent point
+func (r *lcRun) settle(cl *lcClient, c *memConn, op int, rej bool) {
+	w := r.w
+	cl.conn = c
+	if r.onAccept() {
+		// the verdict of the accept callback (scripted rejection or the limit) is read off the log
+		w.waitFor("accept callback", func() bool {
+			for _, e := range w.events {
+				if e.code == evAcceptCb && e.c == c.id {
+					rej = e.b == 0
+					return true
+				}
+			}
+			return false
+		})
+	}
+	switch {
+	case rej:
+		w.waitFor("reject close", func() bool { return c.closeCalls >= 1 })
+		w.mu.Lock()
+		w.logLocked(lcEvent{code: evClientClosed, c: c.id})
+		w.mu.Unlock()
+		cl.state = 3
+	case op == opConnectCancel:
+		// serve sees the cancelled context in its select: it closes the connection, runs the close
+		// callback and returns
+		r.stopped = true
+		r.awaitServe()
+		r.awaitGone(cl)
+		r.afterCancel()
+	case op == opConnectHeld:
+		w.waitFor("held", func() bool { return c.held })
+		cl.state = 5
+	default:
+		w.waitFor("tracked", func() bool { return c.readCalls >= 1 })
+		cl.state = 1
 	}
 }
 
@@ -727,6 +817,12 @@ func (r *lcRun) doRelease() {
 	r.release = make(chan struct{})
 	r.w.mu.Unlock()
 	for _, cl := range bl {
+		if cl.doomed {
+			// no reply will come: the handler panics / the write fails; the goroutine ends on its own
+			cl.blocked = false
+			r.awaitGone(cl)
+			continue
+		}
 		if cl.slow {
 			c := cl.conn
 			r.w.waitFor("write in progress", func() bool { return c.writeBlocked })
@@ -900,6 +996,14 @@ func lcFixedScripts() [][]lcOp {
 		{{opBurst, 6, 2}, {opShutdown, 0, 0}, {opConnectRefused, 6, 0}},
 		// Shutdown after cancel
 		{{opConnect, 0, 0}, {opCancel, 0, 0}, {opShutdown, 0, 0}},
+		// a handler in flight when Shutdown is called, and the connection then ends while still in state
+		// handling: the handler panics / the reply write fails because the client has gone
+		{{opConnect, 0, 0}, {opSend, 0, hBlockPanic}, {opShutdownAsync, 0, 0}, {opRelease, 0, 0}, {opAwaitShutdown, 0, 0}},
+		{{opConnect, 0, 0}, {opConnect, 1, 0}, {opSend, 0, hBlock}, {opShutdownAsync, 0, 0}, {opClientGone, 0, 0}, {opRelease, 0, 0}, {opAwaitShutdown, 0, 0}},
+		// the next client is dialled from inside the close callback of the previous one
+		{{opConnect, 0, 0}, {opConnect, 1, 0}, {opSend, 1, hNormal}, {opDisconnectDial, 0, 2}, {opSend, 2, hNormal}, {opDisconnectDial, 1, 3}, {opDisconnectDial, 2, 4}, {opShutdown, 0, 0}},
+		// Shutdown in serve's start-up window
+		{{opShutdownInServe, 0, 0}, {opConnectRefused, 0, 0}},
 		// cancel while a reply write is in progress
 		{{opConnect, 0, 0}, {opSendSlow, 0, hNormal}, {opCancel, 0, 0}, {opResumeRead, 0, 0}},
 	}
@@ -946,7 +1050,7 @@ func lcRandomScript(g *rng) []lcOp {
 			s = append(s, lcOp{opConnect, next, rej})
 			next++
 		case 3, 4:
-			s = append(s, lcOp{opSend, k, g.pick([]int{hNormal, hNormal, hError, hSleep, hBlock, hPanic})})
+			s = append(s, lcOp{opSend, k, g.pick([]int{hNormal, hNormal, hError, hSleep, hBlock, hPanic, hBlockPanic})})
 		case 5:
 			s = append(s, lcOp{g.pick([]int{opSend, opSendSlow, opResumeRead}), k, g.pick([]int{hNormal, hBlock})})
 		case 6:
@@ -958,7 +1062,14 @@ func lcRandomScript(g *rng) []lcOp {
 		case 9:
 			s = append(s, lcOp{opRest, k, 0})
 		case 10:
-			s = append(s, lcOp{opRelease, 0, 0})
+			if g.bool() {
+				s = append(s, lcOp{opRelease, 0, 0})
+			} else if g.bool() {
+				s = append(s, lcOp{opClientGone, k, 0})
+			} else {
+				s = append(s, lcOp{opDisconnectDial, k, next})
+				next++
+			}
 		case 11:
 			s = append(s, lcOp{g.pick([]int{opGarbage, opPeerReset}), k, 0})
 		}
